@@ -136,7 +136,7 @@ func (x *Exec) doAppend(st *State, s Sl, add Value, pos token.Pos) Value {
 	if !(n.IsInt() && n.Val.Sign() == 0) {
 		st2 := st
 		x.obligeUnder(st2, inplace, func() {
-			x.frameDutyRegionWrite(st2, s.Elem, s.R, pos, "in-place append")
+			x.frameDutyRangeWrite(st2, s.Elem, s.R, Add(s.O, s.L), Add(Add(s.O, s.L), n), pos, "in-place append")
 		})
 	}
 	walkType(s.Elem, "", func(lf leaf, _ types.Type, _ string) {
@@ -166,6 +166,13 @@ func (x *Exec) obligeUnder(st *State, cond *Term, f func()) {
 	st.assume(cond)
 	f()
 	st.hyps, st.hypSet, st.dead = saveH, saveS, dead
+}
+
+func (x *Exec) frameDutyRangeWrite(st *State, elem types.Type, r, lo, hi *Term, pos token.Pos, what string) {
+	if isFreshSym(r) {
+		return
+	}
+	x.frameDutyRange(st, loc{rng: true, root: elem, r: r, lo: lo, hi: hi}, pos, what)
 }
 
 func (x *Exec) frameDutyRegionWrite(st *State, elem types.Type, r *Term, pos token.Pos, what string) {
@@ -198,7 +205,7 @@ func (x *Exec) doCopy(st *State, dst Sl, srcV Value, pos token.Pos) Value {
 	}
 	if !(n.IsInt() && n.Val.Sign() == 0) {
 		x.obligeUnder(st, Gt(n, Int(0)), func() {
-			x.frameDutyRegionWrite(st, dst.Elem, dst.R, pos, "copy destination")
+			x.frameDutyRangeWrite(st, dst.Elem, dst.R, dst.O, Add(dst.O, n), pos, "copy destination")
 		})
 	}
 	walkType(dst.Elem, "", func(lf leaf, _ types.Type, _ string) {
